@@ -446,6 +446,27 @@ def main(argv=None) -> int:
             results.append(r)
         else:
             errors.append(r)
+    # mandatory classes are a vacuity guard, not a lottery: a generated law that did not produce one of its mandatory classes
+    # within its budget gets up to four further rounds (new shard indices, i.e. new seeds) before the run is declared vacuous
+    if not errors:
+        for law in mod.LAWS:
+            if not law.mandatory or law.enumerate is not None or (args.law and not re.search(args.law, law.name)):
+                continue
+            for extra in range(4):
+                have = Counter()
+                for r in results:
+                    if r["law"] == law.name:
+                        have.update(r["labels"])
+                if all(have.get(lab, 0) > 0 for lab in law.mandatory):
+                    break
+                m = min(law.shard, max(1, int(law.budget.get(args.tier, law.budget["quick"]) * args.scale)))
+                st, r = _worker((mod_name, law.name, args.tier, seed, 100000 + extra, m))
+                if st == "ok":
+                    r.setdefault("extra", {})
+                    results.append(r)
+                else:
+                    errors.append(r)
+                    break
     if errors:
         for e in errors:
             print(e)
